@@ -1,6 +1,7 @@
 package props
 
 import (
+	"bytes"
 	"fmt"
 	"net/netip"
 	"strings"
@@ -376,6 +377,43 @@ func c09Scenarios() []*concScenario {
 		closeSession(x, s)
 	}, sessionPost)
 
+	// H6c: dhcp handler: the packet loop sees every message type a server port can receive (a client's messages, and
+	// the OFFER/ACK/NAK of another server relayed or broadcast to port 67) || MinuteTicker || PrintTable: no lock is kept
+	add("H6c", 3, func(x *concExec) {
+		concReset()
+		s, conn := concSession()
+		conn.Yield = false
+		x.data["session"] = s
+		h, err := dhcp4.Config{Mode: dhcp4.ModeSecondaryServer, NetfilterIP: netip.MustParsePrefix("192.168.0.129/25"), DNSServer: ip4rtr, LeaseFilename: "leases.yaml"}.New(s)
+		if err != nil {
+			x.fail("setup", err.Error())
+			return
+		}
+		threads(
+			func() {
+				for mt := byte(1); mt <= 8; mt++ {
+					msg := refnet.DHCP4Msg{Op: 1, XID: 0x0a0b0c00 + uint32(mt), CHAddr: env.MAC2, Options: [][2][]byte{{{53}, {mt}}, {{50}, ip4b.AsSlice()}, {{54}, ip4host.AsSlice()}}}.Bytes()
+					raw := refnet.Eth(bcast, env.MAC2, 0x0800, refnet.IP4(ip4zero, ip4bc, 17, refnet.UDP(68, 67, msg), refnet.IP4Opt{}))
+					buf := make([]byte, len(raw), packet.EthMaxSize)
+					copy(buf, raw)
+					if f, err := s.Parse(buf); err == nil {
+						h.ProcessPacket(f)
+						s.Notify(f)
+					}
+				}
+			},
+			func() {
+				h.MinuteTicker(time.Unix(0, vsched.NowNanos()))
+				h.PrintTable()
+			},
+		)
+		vsched.WaitIdle()
+		h.Close()
+		vsched.WaitIdle()
+		x.observe(fmt.Sprintf("leases=%d", len(h.VerifLeases())))
+		closeSession(x, s)
+	}, sessionPost)
+
 	// H11: the packet loop notifying for a DHCP frame without source address (host found through its offer, a change
 	// pending) || Capture / Release of that MAC
 	add("H11", 3, func(x *concExec) {
@@ -491,6 +529,30 @@ func c09Scenarios() []*concScenario {
 		threads(shutdown, shutdown)
 		vsched.WaitIdle()
 		x.observe("closed")
+	}, sessionPost)
+
+	// H14: two API goroutines capture the same, not yet known MAC || a third one sets an offer for it: one MAC entry
+	add("H14", 3, func(x *concExec) {
+		concReset()
+		s, _ := concSession()
+		x.data["session"] = s
+		threads(
+			func() { s.Capture(env.MAC3); s.IsCaptured(env.MAC3) },
+			func() { s.Capture(env.MAC3); s.Release(env.MAC3) },
+			func() { s.SetDHCPv4IPOffer(env.MAC3, ip4b, packet.NameEntry{}); s.DHCPv4IPOffer(env.MAC3) },
+		)
+		vsched.WaitIdle()
+		n := 0
+		for _, e := range s.MACTable.Table {
+			if bytes.Equal(e.MAC, env.MAC3) {
+				n++
+			}
+		}
+		if n != 1 {
+			x.fail("invariant", fmt.Sprintf("%d MAC entries for the captured MAC, want exactly one", n))
+		}
+		x.observe(fmt.Sprintf("captured=%v", s.IsCaptured(env.MAC3)))
+		closeSession(x, s)
 	}, sessionPost)
 
 	// H13: the packet loop's read fails (the interface went away) || Session.Close
